@@ -8,7 +8,9 @@
 /* exact aliasing (pointer_equals keeps a CONSTANT offset; pointer_in_range_dfcc(t, p, t) gives a symbolic one and writes through p then update the whole enclosing struct: symex does not finish) */
 #define ALIAS(target, ptr) __CPROVER_pointer_equals(ptr, target)
 #define SOCKT struct nni_socket
-#define NOTFOUND IDM_NOTFOUND
+#define RV __CPROVER_return_value
+#define OLD(e) __CPROVER_old(e)
+#define VP_HEAP_GHOSTS g_free_calls, g_alloc_ok
 /* reachability probes: -DVP_COVER turns COVER clauses of the enforced function into negated ensures that must FAIL */
 #ifdef VP_COVER
 #define COVER(c) __CPROVER_ensures(!(c))
@@ -25,52 +27,44 @@
 #define TAIL_PRE(list, sole) (((sole) ? ALIAS(&(list).ll_head, (list).ll_head.ln_prev) : FRESH((list).ll_head.ln_prev, nni_list_node)) && ALIAS(&(list).ll_head, (list).ll_head.ln_prev->ln_next))
 /* item (node n) is the last member of list, behind the node that was the tail before */
 #define APPENDED(list, n) ((list).ll_head.ln_prev == &(n) && (n).ln_next == &(list).ll_head && (n).ln_prev == OLD((list).ll_head.ln_prev) && OLD((list).ll_head.ln_prev)->ln_next == &(n))
-/* heap accounting around operations on a static id map M whose table may be
- * replaced (grown / shrunk) by nni_id_alloc32 / nni_id_remove: a replacement
- * allocates one block and releases the old table if there was one */
-#define SC_SWAPPED(M) ((M).id_cap != OLD((M).id_cap))
-#define SC_HEAP(M, a, f) (g_alloc_ok == OLD(g_alloc_ok) + (a) + (SC_SWAPPED(M) ? 1 : 0) && g_free_calls == OLD(g_free_calls) + (f) + ((SC_SWAPPED(M) && OLD((M).id_cap) != 0) ? 1 : 0))
-/* net number of live blocks grew only by the map's first table (any number of table replacements) */
-#define SC_HEAP_NET0(M) ((g_alloc_ok - OLD(g_alloc_ok)) - (g_free_calls - OLD(g_free_calls)) == (((M).id_cap != 0 && OLD((M).id_cap) == 0) ? 1 : 0))
-
 /* ====================================================================== find
  * C10 handle clause / C03 / C18: the object registered under the id, iff it
  * exists and is not closed; exactly one hold on success, none on failure.
  * g_reg: the object the map holds under `id` (if any) -- see idmap.h. */
 #define CTXR ((nni_ctx *) g_reg)
 int nni_ctx_find(nni_ctx **cp, uint32_t id)
-__CPROVER_requires(FRESH(cp, *cp) && SC_MAP_SHAPE(ctx_ids) && VP_NO_LOCK_HELD)
+__CPROVER_requires(FRESH(cp, *cp) && VP_NO_LOCK_HELD)
 __CPROVER_requires(g_reg == NULL || (FRESH(g_reg, nni_ctx) && FRESH(CTXR->c_sock, SOCKT)))
 __CPROVER_requires(g_reg != NULL ==> (g_u32 == CTXR->c_ref && CTXR->c_ref < 0x7fffffffu))
-__CPROVER_assigns(*cp, g_found, VP_SYNC_GHOSTS)
+__CPROVER_assigns(*cp, g_idg_calls, g_idg_map, g_idg_id, VP_SYNC_GHOSTS)
 __CPROVER_assigns(g_reg != NULL: CTXR->c_ref)
 __CPROVER_ensures(VP_NO_LOCK_HELD)
 __CPROVER_ensures(RV == 0 || RV == NNG_ECLOSED)
 /* success: exactly the registered object, open, on an open socket; one hold */
-__CPROVER_ensures(RV == 0 ==> (g_found != NOTFOUND && *cp == CTXR && ctx_ids.id_entries[g_found].key == id && ctx_ids.id_entries[g_found].val == (void *) *cp))
+__CPROVER_ensures(RV == 0 ==> (g_reg != NULL && *cp == CTXR && g_idg_calls == OLD(g_idg_calls) + 1 && g_idg_map == &ctx_ids && g_idg_id == (uint64_t) id))
 __CPROVER_ensures(RV == 0 ==> (!CTXR->c_closed && !CTXR->c_sock->s_closed && CTXR->c_ref == g_u32 + 1))
 /* iff */
-__CPROVER_ensures((g_found != NOTFOUND && !CTXR->c_closed && !CTXR->c_sock->s_closed) ==> RV == 0)
+__CPROVER_ensures((g_reg != NULL && !CTXR->c_closed && !CTXR->c_sock->s_closed) ==> RV == 0)
 /* failure: no hold, nothing handed out */
 __CPROVER_ensures(RV != 0 ==> (*cp == OLD(*cp) && (g_reg != NULL ==> CTXR->c_ref == g_u32)))
-COVER(RV == 0) COVER(RV != 0 && g_found != NOTFOUND) COVER(g_found == NOTFOUND)
+COVER(RV == 0) COVER(RV != 0 && g_reg != NULL) COVER(g_reg == NULL)
 ;
 
 #define SOCKR ((nni_sock *) g_reg)
 int nni_sock_find(nni_sock **sockp, uint32_t id)
-__CPROVER_requires(FRESH(sockp, *sockp) && SC_MAP_SHAPE(sock_ids) && VP_NO_LOCK_HELD)
+__CPROVER_requires(FRESH(sockp, *sockp) && VP_NO_LOCK_HELD)
 __CPROVER_requires(g_reg == NULL || FRESH(g_reg, SOCKT))
 __CPROVER_requires(g_reg != NULL ==> (g_u32 == SOCKR->s_ref && SOCKR->s_ref < 0x7fffffffu))
-__CPROVER_assigns(*sockp, g_found, VP_SYNC_GHOSTS)
+__CPROVER_assigns(*sockp, g_idg_calls, g_idg_map, g_idg_id, VP_SYNC_GHOSTS)
 __CPROVER_assigns(g_reg != NULL: SOCKR->s_ref)
 __CPROVER_ensures(VP_NO_LOCK_HELD)
 __CPROVER_ensures(RV == 0 || RV == NNG_ECLOSED || RV == NNG_EBUSY)
-__CPROVER_ensures(RV == 0 ==> (g_found != NOTFOUND && *sockp == SOCKR && sock_ids.id_entries[g_found].key == id && sock_ids.id_entries[g_found].val == (void *) *sockp))
+__CPROVER_ensures(RV == 0 ==> (g_reg != NULL && *sockp == SOCKR && g_idg_calls == OLD(g_idg_calls) + 1 && g_idg_map == &sock_ids && g_idg_id == (uint64_t) id))
 __CPROVER_ensures(RV == 0 ==> (!SOCKR->s_closed && !SOCKR->s_device && SOCKR->s_ref == g_u32 + 1))
-__CPROVER_ensures((g_found != NOTFOUND && !SOCKR->s_closed && !SOCKR->s_device) ==> RV == 0)
-__CPROVER_ensures((g_found == NOTFOUND || (g_found != NOTFOUND && SOCKR->s_closed)) ==> RV == NNG_ECLOSED)
+__CPROVER_ensures((g_reg != NULL && !SOCKR->s_closed && !SOCKR->s_device) ==> RV == 0)
+__CPROVER_ensures((g_reg == NULL || (g_reg != NULL && SOCKR->s_closed)) ==> RV == NNG_ECLOSED)
 __CPROVER_ensures(RV != 0 ==> (*sockp == OLD(*sockp) && (g_reg != NULL ==> SOCKR->s_ref == g_u32)))
-COVER(RV == 0) COVER(RV == NNG_EBUSY) COVER(g_found == NOTFOUND)
+COVER(RV == 0) COVER(RV == NNG_EBUSY) COVER(g_reg == NULL)
 ;
 
 /* ============================================================ hold / release */
@@ -91,44 +85,42 @@ __CPROVER_ensures((s->s_closed && s->s_ref <= 1) ? (g_wake_calls == OLD(g_wake_c
 
 /* context release: the count drops by exactly one; the context is destroyed
  * exactly when the last reference of a CLOSED context goes, never before:
- * its id leaves the map first, it leaves its socket's list, the socket's
+ * its id leaves ctx_ids FIRST (before the block is released: no map entry
+ * ever points at released memory), it leaves its socket's list, the socket's
  * closer is woken, the protocol's ctx_fini runs once before the block is
- * released once with its recorded size */
+ * released exactly once with its recorded size */
 #define CTX_SHAPE(ctx) (g_priv < SC_PRIV_MAX && __CPROVER_is_fresh(ctx, sizeof(nni_ctx) + g_priv) && (ctx)->c_size == sizeof(nni_ctx) + g_priv \
     && FRESH((ctx)->c_sock, SOCKT) && (ctx)->c_ops.ctx_fini == vp_ctx_fini && ((ctx)->c_data == NULL || ALIAS((void *) ((ctx) + 1), (ctx)->c_data)) \
     && (ctx)->c_sock->s_ctxs.ll_offset == offsetof(nni_ctx, c_node) && NODE_LINKED((ctx)->c_sock->s_ctxs, (ctx)->c_node, g_sole_a, g_sole_b))
 #define CTX_DESTROY(ctx) (OLD((ctx)->c_ref) == 1 && OLD((ctx)->c_closed))
 #define CTX_RELE_ASSIGNS(ctx) \
-__CPROVER_assigns((ctx)->c_ref, (ctx)->c_node, (ctx)->c_node.ln_next->ln_prev, (ctx)->c_node.ln_prev->ln_next, SC_MAP_TARGETS(ctx_ids), g_wake_calls, g_wake_cv, g_cfini_calls, g_cfini_data, g_cfini_at_free, VP_SYNC_GHOSTS) \
-__CPROVER_assigns(ctx_ids.id_cap != 0: __CPROVER_object_whole(ctx_ids.id_entries)) \
-__CPROVER_frees(ctx, ctx_ids.id_entries)
+__CPROVER_assigns((ctx)->c_ref, (ctx)->c_node, (ctx)->c_node.ln_next->ln_prev, (ctx)->c_node.ln_prev->ln_next, ctx_ids.id_count, G_IDR, g_free_calls, g_wake_calls, g_wake_cv, g_cfini_calls, g_cfini_data, g_cfini_at_free, VP_SYNC_GHOSTS) \
+__CPROVER_frees(ctx)
 #define CTX_RELE_POST(ctx, destroy) \
 __CPROVER_ensures(VP_NO_LOCK_HELD) \
 /* not the last reference of a closed context: one reference less, nothing else */ \
-__CPROVER_ensures(!(destroy) ==> ((ctx)->c_ref == OLD((ctx)->c_ref) - 1 && VP_HEAP_DELTA(0, 0) && SC_MAP_SAME(ctx_ids) && g_wake_calls == OLD(g_wake_calls) && g_cfini_calls == OLD(g_cfini_calls) \
-    && !__CPROVER_was_freed(ctx) && (ctx)->c_node.ln_next == OLD((ctx)->c_node.ln_next))) \
-/* destroyed: the id was looked up for removal; when found its slot is empty and the map has one entry less */ \
-__CPROVER_ensures((destroy) ==> (ctx_ids.id_count == OLD(ctx_ids.id_count) - (g_found != NOTFOUND ? 1 : 0))) \
-__CPROVER_ensures(((destroy) && g_found != NOTFOUND && g_k == g_found) ==> g_kk == OLD((ctx)->c_id)) \
-__CPROVER_ensures(((destroy) && g_found != NOTFOUND && (void *) ctx_ids.id_entries == g_ents) ==> (ctx_ids.id_entries[g_found].val == NULL && ctx_ids.id_entries[g_found].key == 0)) \
+__CPROVER_ensures(!(destroy) ==> ((ctx)->c_ref == OLD((ctx)->c_ref) - 1 && VP_HEAP_DELTA(0, 0) && g_idr_calls == OLD(g_idr_calls) && g_wake_calls == OLD(g_wake_calls) && g_cfini_calls == OLD(g_cfini_calls) \
+    && !__CPROVER_was_freed(ctx) && (ctx)->c_node.ln_next == OLD((ctx)->c_node.ln_next) && (ctx)->c_node.ln_prev == OLD((ctx)->c_node.ln_prev))) \
+/* destroyed: its id removed from ctx_ids, once, before anything was released */ \
+__CPROVER_ensures((destroy) ==> (SC_REMOVED(ctx_ids, OLD((ctx)->c_id)) && g_idr_at_free == OLD(g_free_calls))) \
 /* off the socket's list, closer woken */ \
 __CPROVER_ensures((destroy) ==> (NODE_UNLINKED_POST((ctx)->c_node) && g_wake_calls == OLD(g_wake_calls) + 1 && g_wake_cv == &OLD((ctx)->c_sock)->s_close_cv)) \
 /* protocol state finalised once (if there is any), BEFORE the block goes; the block is released exactly once, sized */ \
-__CPROVER_ensures((destroy) ==> (OLD((ctx)->c_data) != NULL ? (g_cfini_calls == OLD(g_cfini_calls) + 1 && g_cfini_data == OLD((ctx)->c_data) && g_cfini_at_free < g_free_calls) : g_cfini_calls == OLD(g_cfini_calls))) \
-__CPROVER_ensures((destroy) ==> (__CPROVER_was_freed(ctx) && SC_HEAP(ctx_ids, 0, 1)))
+__CPROVER_ensures((destroy) ==> (OLD((ctx)->c_data) != NULL ? (g_cfini_calls == OLD(g_cfini_calls) + 1 && g_cfini_data == OLD((ctx)->c_data) && g_cfini_at_free == OLD(g_free_calls)) : g_cfini_calls == OLD(g_cfini_calls))) \
+__CPROVER_ensures((destroy) ==> (__CPROVER_was_freed(ctx) && VP_HEAP_DELTA(0, 1)))
 
 void nni_ctx_rele(nni_ctx *ctx)
-__CPROVER_requires(CTX_SHAPE(ctx) && ctx->c_ref >= 1 && SC_MAP_PRE(ctx_ids) && VP_NO_LOCK_HELD)
+__CPROVER_requires(CTX_SHAPE(ctx) && ctx->c_ref >= 1 && VP_NO_LOCK_HELD)
 CTX_RELE_ASSIGNS(ctx)
 CTX_RELE_POST(ctx, CTX_DESTROY(ctx))
-COVER(CTX_DESTROY(ctx) && g_found != NOTFOUND) COVER(!CTX_DESTROY(ctx)) COVER(CTX_DESTROY(ctx) && SC_SWAPPED(ctx_ids))
+COVER(CTX_DESTROY(ctx) && g_sole_a && g_sole_b) COVER(!CTX_DESTROY(ctx)) COVER(CTX_DESTROY(ctx) && !g_sole_a && OLD(ctx->c_data) == NULL)
 ;
 
 /* closing a context: latches c_closed and drops the caller's reference; the
  * context is destroyed now iff that was the last reference, otherwise by the
  * nni_ctx_rele that drops the last one */
 void nni_ctx_close(nni_ctx *ctx)
-__CPROVER_requires(CTX_SHAPE(ctx) && ctx->c_ref >= 1 && SC_MAP_PRE(ctx_ids) && VP_NO_LOCK_HELD)
+__CPROVER_requires(CTX_SHAPE(ctx) && ctx->c_ref >= 1 && VP_NO_LOCK_HELD)
 CTX_RELE_ASSIGNS(ctx)
 __CPROVER_assigns(ctx->c_closed)
 CTX_RELE_POST(ctx, OLD(ctx->c_ref) == 1)
@@ -137,38 +129,43 @@ COVER(OLD(ctx->c_ref) == 1) COVER(OLD(ctx->c_ref) == 2)
 ;
 
 /* ================================================================ nni_ctx_open
- * C18: the context's id is the one the allocator issued, registered in
- * ctx_ids under exactly that id for exactly this object, positive 31-bit.
- * C20 / C03: every failure releases what was built: no map entry, not on the
- * socket's list, ctx_fini for every ctx_init, the block released, no lock held. */
+ * C18: the context's id is the one the allocator issued from ctx_ids for
+ * exactly this object, positive 31-bit (range fixed by the static initialiser).
+ * C20 / C03: every failure releases what was built: an issued id is removed
+ * again, the context is not on the socket's list, ctx_fini ran for every
+ * ctx_init, the block was released, no lock is held. */
 #define NEWCTX (*ctxp)
 #define CTXSZ(sock) (NNI_ALIGN_UP(sizeof(nni_ctx)) + (sock)->s_ctx_ops.ctx_size)
+#define CO_ISSUED (g_ida_calls == OLD(g_ida_calls) + 1 && !g_ida_fail)
 int nni_ctx_open(nni_ctx **ctxp, nni_sock *sock)
-__CPROVER_requires(FRESH(ctxp, *ctxp) && FRESH(sock, SOCKT) && SC_MAP_PRE(ctx_ids) && VP_NO_LOCK_HELD)
+__CPROVER_requires(FRESH(ctxp, *ctxp) && FRESH(sock, SOCKT) && VP_NO_LOCK_HELD)
 __CPROVER_requires((sock->s_ctx_ops.ctx_init == NULL || sock->s_ctx_ops.ctx_init == vp_ctx_init) && sock->s_ctx_ops.ctx_fini == vp_ctx_fini && sock->s_ctx_ops.ctx_size < SC_PRIV_MAX)
 /* g_sole_b: the socket has no context yet; g_priv, g_sole_a: bound for the release step of the closing path */
 __CPROVER_requires(sock->s_ctxs.ll_offset == offsetof(nni_ctx, c_node) && TAIL_PRE(sock->s_ctxs, g_sole_b) && g_sole_a && g_priv == sock->s_ctx_ops.ctx_size)
-__CPROVER_assigns(*ctxp, sock->s_ctxs.ll_head.ln_prev, sock->s_ctxs.ll_head.ln_prev->ln_next, SC_MAP_TARGETS(ctx_ids), g_wake_calls, g_wake_cv, g_cinit_calls, g_cinit_data, g_cinit_sdata, g_cfini_calls, g_cfini_data, g_cfini_at_free, VP_SYNC_GHOSTS)
-__CPROVER_assigns(ctx_ids.id_cap != 0: __CPROVER_object_whole(ctx_ids.id_entries))
-__CPROVER_frees(ctx_ids.id_entries)
+__CPROVER_assigns(*ctxp, sock->s_ctxs.ll_head.ln_prev, sock->s_ctxs.ll_head.ln_prev->ln_next, ctx_ids.id_count, G_IDA, G_IDR, VP_HEAP_GHOSTS, g_wake_calls, g_wake_cv, g_cinit_calls, g_cinit_data, g_cinit_sdata, g_cfini_calls, g_cfini_data, g_cfini_at_free, VP_SYNC_GHOSTS)
 __CPROVER_ensures(VP_NO_LOCK_HELD)
 __CPROVER_ensures(RV == 0 || RV == NNG_ENOTSUP || RV == NNG_ENOMEM || RV == NNG_ECLOSED)
 __CPROVER_ensures((RV == NNG_ENOTSUP) == (sock->s_ctx_ops.ctx_init == NULL))
 __CPROVER_ensures(RV == 0 ==> (!sock->s_closed && !sock->s_closing))
-/* success: a new block of the right size; id issued by the allocator, registered for exactly this object, in range */
-__CPROVER_ensures(RV == 0 ==> (__CPROVER_is_fresh(NEWCTX, CTXSZ(sock)) && NEWCTX->c_size == CTXSZ(sock) && SC_MAP_HAS(ctx_ids, NEWCTX->c_id, NEWCTX) && SC_ID_OK(NEWCTX->c_id)))
+/* success: a new block of the right size; id issued by the allocator for exactly this object, in range, still registered */
+__CPROVER_ensures(RV == 0 ==> (__CPROVER_is_fresh(NEWCTX, CTXSZ(sock)) && NEWCTX->c_size == CTXSZ(sock) && SC_ISSUED(ctx_ids, NEWCTX->c_id, NEWCTX) && g_idr_calls == OLD(g_idr_calls)))
 __CPROVER_ensures(RV == 0 ==> (NEWCTX->c_ref == 1 && !NEWCTX->c_closed && NEWCTX->c_sock == sock && NEWCTX->c_data == (void *) (NEWCTX + 1) && NEWCTX->c_ops.ctx_fini == vp_ctx_fini \
     && NEWCTX->c_rcvtimeo == sock->s_rcvtimeo && NEWCTX->c_sndtimeo == sock->s_sndtimeo))
 __CPROVER_ensures(RV == 0 ==> (APPENDED(sock->s_ctxs, NEWCTX->c_node) && g_cinit_calls == OLD(g_cinit_calls) + 1 && g_cinit_data == NEWCTX->c_data && g_cinit_sdata == sock->s_data && g_cfini_calls == OLD(g_cfini_calls)))
-__CPROVER_ensures(RV == 0 ==> (SC_HEAP(ctx_ids, 1, 0) && ctx_ids.id_count >= OLD(ctx_ids.id_count)))
-/* failure: nothing handed out, nothing left behind */
-__CPROVER_ensures(RV != 0 ==> (*ctxp == OLD(*ctxp) && SC_HEAP_NET0(ctx_ids) && ctx_ids.id_count == OLD(ctx_ids.id_count)))
+__CPROVER_ensures(RV == 0 ==> VP_HEAP_DELTA(1, 0))
+/* failure: nothing handed out, every block allocated was released */
+__CPROVER_ensures(RV != 0 ==> (*ctxp == OLD(*ctxp) && g_alloc_ok - OLD(g_alloc_ok) == g_free_calls - OLD(g_free_calls) && g_alloc_ok <= OLD(g_alloc_ok) + 1))
+/* an id that was issued is removed again (before the block is released); none is removed otherwise */
+__CPROVER_ensures((RV != 0 && CO_ISSUED) ==> (SC_REMOVED(ctx_ids, g_ida_issued) && g_ida_map == &ctx_ids && g_idr_at_free == OLD(g_free_calls)))
+__CPROVER_ensures((RV != 0 && !CO_ISSUED) ==> g_idr_calls == OLD(g_idr_calls))
+/* protocol state: finalised iff initialised */
 __CPROVER_ensures(RV != 0 ==> (g_cfini_calls - OLD(g_cfini_calls) == g_cinit_calls - OLD(g_cinit_calls)))
+/* not left on the socket's list */
 __CPROVER_ensures(RV != 0 ==> (sock->s_ctxs.ll_head.ln_prev == OLD(sock->s_ctxs.ll_head.ln_prev) && OLD(sock->s_ctxs.ll_head.ln_prev)->ln_next == &sock->s_ctxs.ll_head))
-/* a refused allocation (block or id) leaves the map exactly as it was */
-__CPROVER_ensures((RV == NNG_ENOMEM || RV == NNG_ENOTSUP) ==> (IDM_ARRAY_KEPT(&ctx_ids) && g_cinit_calls == OLD(g_cinit_calls)))
-COVER(RV == 0) COVER(RV == NNG_ENOMEM && g_alloc_ok != OLD(g_alloc_ok)) COVER(RV == NNG_ECLOSED && sock->s_closed) COVER(RV == NNG_ECLOSED && !sock->s_closed)
+/* a refused allocation (block or id): NNG_ENOMEM, the protocol never saw the context */
+__CPROVER_ensures((RV == NNG_ENOMEM || RV == NNG_ENOTSUP) ==> (g_cinit_calls == OLD(g_cinit_calls) && !CO_ISSUED))
+__CPROVER_ensures((g_ida_calls != OLD(g_ida_calls) && g_ida_fail) ==> RV == NNG_ENOMEM)
+COVER(RV == 0) COVER(RV == NNG_ENOMEM && g_alloc_ok != OLD(g_alloc_ok)) COVER(RV == NNG_ECLOSED && sock->s_closed) COVER(RV == NNG_ECLOSED && !sock->s_closed) COVER(RV == NNG_ENOMEM && g_alloc_ok == OLD(g_alloc_ok))
 ;
-
 /* clang-format on */
 #endif
